@@ -343,6 +343,105 @@ def run_mode(prog, mode, n_app, n_re, name, bound, timer):
     return ob
 
 
+def creation_crash(prog, name):
+    """s04_2: a crash behind every prefix of the file mutations that LogInnerManager::init makes while it creates a new log file
+    (first write of a fresh store, rollover, snapshot-pointer log): the file must reopen as an empty log that accepts the first append"""
+    ob = {"engine": "smt", "harness": name, "encodes_files": FILES, "queries": 0, "solver_s": 0.0, "distinct": 0,
+          "encodes": ["LogInnerManager::{init,read_indexs,move_to_end,move_to_index_by_count,write,read_records,get_end_index}"],
+          "bound": "creation of a new log file (first index 0 or 5): a crash behind every prefix of init's file mutations, reopen, one append, reopen"}
+    try:
+        it, fs = setup(prog)
+        init_fn = prog.methods[("LogInnerManager", "init")]
+        startv, crashv = z3.BitVec("first_index_of_file", 8), z3.BitVec("crash_after", 8)
+        covers = {}
+        ops_box = [[]]
+
+        def thunk():
+            try:
+                r = inner()
+            except rseval.RustPanic as e:
+                ops_box[0].append({"op": "expect", "what": "reopened after a crash during creation", "candidates": [[]]})
+                r = ("violation", "panic in the log file code while reopening a file whose creation was interrupted: %s" % e, [("crash during creation",)], "panic-after-creation-crash")
+            return (r, list(ops_box[0]))
+
+        def inner():
+            st = pick(it, startv, [0, 5])
+            fs.files.clear()
+            fs.journal = []
+            r = it._invoke(init_fn, ["log", st, 0, 0], self_ty="LogInnerManager")
+            journal = fs.journal
+            fs.journal = None
+            if not (isinstance(r, Enum) and r.variant == "Ok"):
+                return ("violation", "a fresh log file cannot be initialised", [], "init")
+            p = pick(it, crashv, list(range(len(journal) + 1)))
+            log = [("first-index", st), ("crash-after-mutation", p, "of", len(journal), "during creation")]
+            fs.files.clear()
+            fs.files.update(iomodel.replay_journal({}, journal, p))
+            ops = ops_box[0] = [{"op": "first", "first": st}]
+            if "log" in fs.files:
+                ops.append({"op": "load_image", "bytes": list(fs.files["log"])})
+            else:
+                ops.append({"op": "open", "first": st})
+            if 0 < p < len(journal):
+                covers["crash inside the creation of a log file"] = covers.get("crash inside the creation of a log file", 0) + 1
+            r = it._invoke(init_fn, ["log", st, 0, 0], self_ty="LogInnerManager")
+            if not (isinstance(r, Enum) and r.variant == "Ok"):
+                return ("violation", "a log file whose creation was interrupted does not reopen", log, "reopen-after-crash-fails")
+            m = r.payload[0]
+            ops.append({"op": "expect", "what": "reopened after a crash during creation", "candidates": [[]]})
+            end = it.call_method("LogInnerManager", "get_end_index", m, [])
+            if end != st:
+                return ("violation", "a log file whose creation was interrupted reports end index %s instead of its first index %s" % (end, st), log, "end-index-too-large")
+            recd = Struct("LogRecordDto", {"index": st, "term": 1, "value": [7]})
+            r = it.call_method("LogInnerManager", "write", m, [recd])
+            kind = r.payload[0].variant if isinstance(r, Enum) and r.variant == "Ok" and isinstance(r.payload[0], Enum) else "Err"
+            ops.append({"op": "write", "index": st, "term": 1, "value": [7], "expect": "ok", "model_kind": kind, "what": "the first append to a log file whose creation was interrupted is refused"})
+            log.append(("append", st, kind))
+            if kind not in ("Success", "SuccessToEnd"):
+                return ("violation", "the first append to a log file whose creation was interrupted is refused (%s)" % kind, log, "append-refused")
+            r = it._invoke(init_fn, ["log", st, 0, 0], self_ty="LogInnerManager")
+            ops.append({"op": "reopen"})
+            ops.append({"op": "expect", "what": "after the first append and a reopen", "candidates": [[[st, 1, [7]]]]})
+            if not (isinstance(r, Enum) and r.variant == "Ok"):
+                return ("violation", "the log does not reopen", log, "reopen-fails")
+            m2 = r.payload[0]
+            if it.call_method("LogInnerManager", "get_end_index", m2, []) != st + 1:
+                return ("violation", "after the first append and a reopen the log does not report exactly one entry", log, "entries-lost")
+            return ("ok", None, log, None)
+        t1 = time.time()
+        paths = it.explore(thunk, max_paths=5000)
+        viol = None
+        ok_paths = []
+        for pc, rr, exc in paths:
+            r, ops = rr if rr is not None else ((None,), [])
+            if exc is not None:
+                viol = {"message": "panic in the log file code: %s" % exc, "tags": ["panic"], "model": {}, "ops": None}
+                break
+            if r[0] == "violation":
+                viol = {"message": r[1], "tags": [r[3]], "model": {"history": [list(map(str, e)) for e in r[2]]}, "ops": concretize_ops(ops, z3.Solver().model() if False else _empty_model())}
+                break
+            ok_paths.append((pc, ops))
+        ob["queries"] = it.queries
+        ob["solver_s"] = round(time.time() - t1, 1)
+        ob["sample"] = {"paths_explored": len(paths), "covers": covers}
+        ob["_ok_paths"] = (ok_paths, [])
+        if viol:
+            ob.update({"verdict": "violation", "message": viol["message"], "tags": viol["tags"], "counterexample": viol["model"], "_ops": viol.get("ops")})
+        elif not covers.get("crash inside the creation of a log file"):
+            ob.update({"verdict": "inconclusive", "message": "reachability witness never reached: crash inside the creation of a log file"})
+        else:
+            ob.update({"verdict": "discharged", "distinct": len(paths)})
+    except rsparse.Unsupported as e:
+        ob.update({"verdict": "inconclusive", "message": "encoder met source it cannot encode: %s" % e})
+    return ob
+
+
+def _empty_model():
+    s = z3.Solver()
+    s.check()
+    return s.model()
+
+
 def run(tier, seed, which="C03"):
     t0 = time.time()
     info = {"files": FILES, "solver": "z3 " + z3.get_version_string(), "cmd": "python3-vt -m lib.main %s (rs2smt/c03.py)" % which}
@@ -361,6 +460,7 @@ def run(tier, seed, which="C03"):
     if which == "C04":
         obligations.append(run_mode(prog, "crash", n_app, 1, "s04_1_crash_points",
                                     "%d appends, delete from k, 0-1 re-append; a crash after every prefix of the file mutations (write / set_len calls, also inside an operation), then reopen; index interval 2" % n_app, None))
+        obligations.append(creation_crash(prog, "s04_2_crash_during_creation"))
     from lib import native
     import os
     if os.environ.get("VERIF_NO_NATIVE"):
